@@ -161,8 +161,12 @@ fn response(s: &Value) -> Response<Empty> {
     for i in 0..s["events"].as_u64().unwrap_or(0) {
         r = r.add_event(Event::new(format!("e{i}")).add_attribute("x", format!("{i}")));
     }
-    if s["data"].as_bool().unwrap_or(false) {
-        r = r.set_data(b"data!");
+    // data: "none" | "empty" (present, no bytes) | "zero" (one zero byte) | "bytes"
+    match s["data"].as_str().unwrap_or("none") {
+        "empty" => r = r.set_data(Vec::<u8>::new()),
+        "zero" => r = r.set_data(vec![0u8]),
+        "bytes" => r = r.set_data(b"data!"),
+        _ => {}
     }
     r
 }
